@@ -95,13 +95,27 @@ def lex_class(seg) -> str:
     return "code"
 
 
+_QUOTE_PAIRS = {('"', '"'), ("`", "`"), ("[", "]"), ("'", "'")}
+
+
+def leaf_type(seg) -> str:
+    """The segment's type, except that a code token *written* in quotes whose type does not say so (several dialects
+    give a quoted function or type name the same type as a bare one: `[MyFunc]`, `` `MyFunc` ``, `[Int]`) is reported
+    as "quoted:<type>": C15's CaseKinds are the unquoted kinds, and what is quoted is a lexical fact."""
+    typ = seg.get_type()
+    r = seg.raw
+    if len(r) >= 2 and (r[0], r[-1]) in _QUOTE_PAIRS and seg.is_code and "quoted" not in typ and "literal" not in typ:
+        return "quoted:" + typ
+    return typ
+
+
 def project(segs, tb: Tables) -> dict:
     t, k = [], []
     for s in segs:
         if s.is_meta:
             continue
         t.append(tb.tid(s.raw))
-        k.append(tb.kid(lex_class(s), s.get_type()))
+        k.append(tb.kid(lex_class(s), leaf_type(s)))
     return {"t": t, "k": k}
 
 
